@@ -104,8 +104,9 @@ type txIn struct {
 	Ctx    txCtx    `json:"ctx"`
 	Net    txNet    `json:"net"`
 	Mem    trMem    `json:"mem"`
-	FailAt *int     `json:"failAt"`
-	Trace  *txTrace `json:"trace,omitempty"`
+	FailAt  *int     `json:"failAt"`
+	FailGet *int     `json:"failGet"` // the k-th Get (1-based, ConfigMaps not counted) fails with an internal error
+	Trace   *txTrace `json:"trace,omitempty"`
 }
 
 const (
@@ -335,6 +336,9 @@ func txRun(in txIn) interface{} {
 	if in.FailAt != nil {
 		cli.FailAt = *in.FailAt
 	}
+	if in.FailGet != nil {
+		cli.FailGetN = *in.FailGet
+	}
 	canaryKey := trNS + "/" + trSvc + "-canary"
 	trSetMem(in.Mem, canaryKey)
 	defer grace.ResetExpectations()
@@ -375,7 +379,7 @@ func txRun(in txIn) interface{} {
 		}
 	}
 	return J{"done": b, "err": err != nil, "net": txAbstract(cli.Client, in.Net.Custom), "mem": trGetMem(canaryKey),
-		"touched": touched, "recheck": tc.RecheckDuration > 0, "writes": writes}
+		"touched": touched, "recheck": tc.RecheckDuration > 0, "writes": writes, "readFailed": cli.GetFailed}
 }
 
 // txExec runs one line; a panic of the code under test is an output
@@ -426,9 +430,9 @@ func (g txGen) prov() txProv {
 		p.Custom, p.Ingress = true, &cls
 	case r < 72:
 		p.Ingress, p.Gateway = &cls, true
-	case r < 94:
-		p.Custom, p.Ingress, p.Gateway = true, &cls, true
 	case r < 96:
+		p.Custom, p.Ingress, p.Gateway = true, &cls, true
+	case r < 98:
 		// a class type without a Lua script: the provider cannot be built
 		bad := "no-such-class"
 		p.Ingress, p.Gateway = &bad, g.p(50)
@@ -459,7 +463,7 @@ func (g txGen) custom(canary string, dirty bool) []txCuRef {
 	for i, k := 0, []int{0, 1, 1, 1, 2, 2, 3}[g.n(7)]; i < k; i++ {
 		kind := g.pick("vs", "vs", "vs", "dr")
 		var o *cuObjIn
-		if !g.p(4) {
+		if !g.p(2) {
 			j := cg.obj(kind, trSvc, canary).(J)
 			if !dirty {
 				j["orig"] = nil
@@ -478,9 +482,9 @@ func (g txGen) custom(canary string, dirty bool) []txCuRef {
 // net: the initial abstract state of a walk.  pristine = as the user wrote it (no canary ref in the route, no
 // canary Ingress, no original-configuration annotation, Services untouched).
 func (g txGen) net(p txProv, canary string, pristine bool) txNet {
-	n := txNet{StableExists: !g.p(4)}
+	n := txNet{StableExists: !g.p(3)}
 	gg := &gwGen{c: g.c, conf: gateway.Config{StableService: trSvc, CanaryService: trSvc + "-canary"}}
-	if g.p(94) {
+	if g.p(97) {
 		rs := gg.route(!pristine && g.p(50))
 		b, _ := json.Marshal(gwRules(rs))
 		var crs []cRule
@@ -496,7 +500,7 @@ func (g txGen) net(p txProv, canary string, pristine bool) txNet {
 	if p.Ingress != nil {
 		class = *p.Ingress
 	}
-	if g.p(94) {
+	if g.p(97) {
 		ing := g.ingress(g.p(15), class)
 		n.Ing.Stable = &ing
 	}
@@ -527,7 +531,8 @@ func (g txGen) atom(query bool) cAtom {
 	return cAtom{T: &t, N: g.pick("user", "version", "canary-by-cookie", "x-env"), V: g.pick("a", "v2", "true", "123.*")}
 }
 
-func (g txGen) matches() []cMatch {
+// matches: headerful = every match carries a header (what the aliyun-alb / higress scripts need)
+func (g txGen) matches(headerful bool) []cMatch {
 	ms := []cMatch{}
 	for i, k := 0, 1+g.n(2); i < k; i++ {
 		m := cMatch{H: []cAtom{}, Q: []cAtom{}}
@@ -536,7 +541,7 @@ func (g txGen) matches() []cMatch {
 			v := g.pick("/", "/web", "/v2/store")
 			m.Path = &cPath{T: &t, V: &v}
 		}
-		if g.p(80) {
+		if headerful || g.p(80) {
 			for j, l := 0, 1+g.n(2); j < l; j++ {
 				m.H = append(m.H, g.atom(false))
 			}
@@ -560,13 +565,14 @@ func (g txGen) strategy(c *txCtx) {
 		s := fmt.Sprintf("%d%%", []int{0, 1, 5, 20, 50, 100, g.n(101), g.n(101)}[g.n(8)])
 		return &s
 	}
+	headerful := c.Prov.Ingress != nil && (*c.Prov.Ingress == "aliyun-alb" || *c.Prov.Ingress == "higress") && !g.p(10)
 	switch r := g.n(100); {
 	case r < 52:
 		c.Traffic = weight()
 	case r < 84:
-		c.Matches = g.matches()
+		c.Matches = g.matches(headerful)
 	case r < 90:
-		c.Traffic, c.Matches = weight(), g.matches()
+		c.Traffic, c.Matches = weight(), g.matches(headerful)
 	default:
 		// neither: nothing to route
 	}
@@ -662,14 +668,16 @@ func (w *txWalk) anyFresh() bool {
 }
 
 // call: one Manager call from the walk's current abstract state; returns the implementation's answer
-func (w *txWalk) call(call string, failAt *int) J {
+func (w *txWalk) call(call string, failAt *int) J { return w.callF(call, failAt, nil) }
+
+func (w *txWalk) callF(call string, failAt, failGet *int) J {
 	k := w.key(call)
 	undisturbed := k == w.lastKey
 	tr := &txTrace{Pristine: w.pristine}
 	if undisturbed {
 		tr.Streak, tr.PrevDone = w.streak, w.prevDone
 	}
-	in := txIn{Call: call, Ctx: w.ctx, Net: w.net, Mem: w.mem, FailAt: failAt, Trace: tr}
+	in := txIn{Call: call, Ctx: w.ctx, Net: w.net, Mem: w.mem, FailAt: failAt, FailGet: failGet, Trace: tr}
 	out := txExec(in)
 	if _, p := out["panic"]; p {
 		w.c.Emit("call", in, out)
@@ -699,7 +707,7 @@ func (w *txWalk) call(call string, failAt *int) J {
 	}
 	// trace bookkeeping: a round counts when nothing but the passing of time separates it from the previous one,
 	// it ran without an injected fault, and no grace period was still running when it was made
-	waited := failAt == nil && !w.callWaited(in)
+	waited := failAt == nil && failGet == nil && !w.callWaited(in)
 	if undisturbed && waited {
 		w.streak++
 	} else if waited {
@@ -707,7 +715,7 @@ func (w *txWalk) call(call string, failAt *int) J {
 	} else {
 		w.streak = 0
 	}
-	w.prevDone = failAt == nil && !isErr && ((call == "doTrafficRouting" || call == "finalisingTrafficRouting") && done)
+	w.prevDone = failAt == nil && failGet == nil && !isErr && ((call == "doTrafficRouting" || call == "finalisingTrafficRouting") && done)
 	w.lastKey = k
 	return out
 }
@@ -719,20 +727,36 @@ func (w *txWalk) callWaited(in txIn) bool {
 		m.RestoreGateway == "fresh" || m.RemoveCanaryService == "fresh" || m.UpdateRoute == "fresh"
 }
 
-func (w *txWalk) fault() *int {
-	if w.g.p(10) {
+// fault: an injected write fault (the k-th write and every later one fail) or read fault (the k-th Get fails)
+func (w *txWalk) fault() (*int, *int) {
+	switch r := w.g.n(100); {
+	case r < 8:
 		k := w.g.n(3)
-		return &k
+		return &k, nil
+	case r < 18:
+		k := 1 + w.g.n(5)
+		return nil, &k
+	case r < 20:
+		k, j := w.g.n(3), 1+w.g.n(4)
+		return &k, &j
 	}
-	return nil
+	return nil, nil
 }
 
 func (w *txWalk) rounds(call string, max int, doneMeans bool) {
-	extra := 0
+	extra, errs := 0, 0
 	for i := 0; i < max && !w.dead; i++ {
-		out := w.call(call, w.fault())
+		fa, fg := w.fault()
+		out := w.callF(call, fa, fg)
 		if w.dead {
 			return
+		}
+		if out["err"].(bool) && fa == nil && fg == nil {
+			// an error that is not an injected fault persists (missing object, Lua error): one more round, then give up
+			errs++
+			if errs > 1 {
+				return
+			}
 		}
 		if w.g.p(88) {
 			w.timePasses()
@@ -813,12 +837,16 @@ func runTrafficXRandom(c *Ctx) {
 		f := false
 		w.ctx.HasRevKey = &f
 	}
-	var failAt *int
+	var failAt, failGet *int
 	if g.p(20) {
 		k := g.n(4)
 		failAt = &k
 	}
-	w.call(call, failAt)
+	if g.p(25) && call != "initialize" {
+		k := 1 + g.n(5)
+		failGet = &k
+	}
+	w.callF(call, failAt, failGet)
 }
 
 func runTrafficX(c *Ctx) {
